@@ -489,3 +489,110 @@ func ruleNoRuntimeWritesToCaptured(c *Ctx, rule string) {
 	}
 	c.Extra(rule+"_closures", total)
 }
+
+// A2c — accessors inside a category arm. Where a compile function switches on the category of the place's type
+// (`switch cat { case xr.Int: ... case xr.Uint: ... }` with cat := reflect.Category(t.Kind())), every reflect
+// accessor applied in that arm to a value read from or written to the place — Int/Uint/Float/Complex, SetInt/SetUint
+// ..., and the helpers mapIndexInt / mapIndexUint — has the category of the arm. (A2 judges accessors under a
+// conversion T(v.Acc()); the closures for shifts and for division by a power of two read `result := lhs.Int()`
+// without one, and two arms are too few for the sibling-uniformity vote.)
+func ruleAccessorInCategoryArm(c *Ctx, rule string, files []string) {
+	pk := c.P.Pkg("fast")
+	info := pk.TypesInfo
+	fileSet := map[string]bool{}
+	for _, f := range files {
+		fileSet[f] = true
+	}
+	type res struct {
+		n     int
+		bad   string
+		first ast.Node
+	}
+	per := map[string]*res{}
+	helperCat := map[string]string{"mapIndexInt": "Int", "mapIndexUint": "Uint"}
+	for _, fd := range c.P.FuncsOf("fast") {
+		if fd.Body == nil || !fileSet[baseName(c.P.Fset, fd)] {
+			continue
+		}
+		fkey := funcKey(pk, fd)
+		di := buildDefIndex(info, fd)
+		ast.Inspect(fd.Body, func(n ast.Node) bool {
+			sw, ok := n.(*ast.SwitchStmt)
+			if !ok || sw.Tag == nil {
+				return true
+			}
+			// tag is a category: reflect.Category(...) directly or through a local
+			tag := unparen(sw.Tag)
+			if id := identOf(tag); id != nil {
+				if d := di.single(info.Uses[id]); d != nil {
+					tag = unparen(d)
+				}
+			}
+			call, ok := tag.(*ast.CallExpr)
+			if !ok {
+				return true
+			}
+			if fn := calleeOf(info, call); fn == nil || fn.Name() != "Category" {
+				return true
+			}
+			for _, cc := range sw.Body.List {
+				cl := cc.(*ast.CaseClause)
+				if len(cl.List) != 1 {
+					continue
+				}
+				o := usedObj(info, cl.List[0])
+				if o == nil {
+					continue
+				}
+				want := kindCategory(o.Name())
+				if want != "Int" && want != "Uint" && want != "Float" && want != "Complex" {
+					continue
+				}
+				for _, st := range cl.Body {
+					inspectCalls(st, func(call *ast.CallExpr) {
+						got := ""
+						if fn := calleeOf(info, call); fn != nil && fn.Pkg() == pk.Types {
+							got = helperCat[fn.Name()]
+						}
+						if sel, ok := unparen(call.Fun).(*ast.SelectorExpr); ok && isReflectValue(info.TypeOf(sel.X)) {
+							if g, ok := getAccessors[sel.Sel.Name]; ok && len(call.Args) == 0 {
+								got = g
+							}
+							if g, ok := setAccessors[sel.Sel.Name]; ok && len(call.Args) == 1 {
+								got = g
+							}
+						}
+						if got == "" || got == "String" || got == "Bool" {
+							return
+						}
+						r := per[fkey]
+						if r == nil {
+							r = &res{first: call}
+							per[fkey] = r
+						}
+						r.n++
+						if got != want && r.bad == "" {
+							r.bad = fmt.Sprintf("%s: %s in the arm of category %s", c.pos(call), exprString(call.Fun), want)
+							r.first = call
+						}
+					})
+				}
+			}
+			return true
+		})
+	}
+	var keys []string
+	for k := range per {
+		keys = append(keys, k)
+	}
+	sort.Strings(keys)
+	total := 0
+	for _, k := range keys {
+		r := per[k]
+		total += r.n
+		c.Ob(rule, k, r.first, r.bad == "", fmt.Sprintf("%d reflect accessors inside category arms have the category of their arm%s", r.n, sep(r.bad)))
+	}
+	if total < 20 {
+		c.Ob(rule, "fast/category-arms", nil, false, fmt.Sprintf("%d accessors in category arms found, more than 20 expected", total))
+	}
+}
